@@ -17,6 +17,7 @@ from ..values import (ALL_KINDS, Frag, SBool, SDict, SFunc, SInt, SList, SNew, S
 from .c11 import LISTING, listing_tokens, hoist_listing_shapes
 
 CORE = "htmltools._core"
+UTIL = "htmltools._util"
 SER = f"{CORE}:HTMLDependency.serialize_to_script_json"
 EXT = f"{CORE}:HTMLTextDocument._static_extract_serialized_html_deps"
 
@@ -232,6 +233,32 @@ def extraction(ctx: Ctx, I: Interp, tag: SNew) -> None:
             ctx.check(m is not None and m.group(1) == "a\nb\r\n", "C13.pattern", "the body group matches across line breaks", EXT, "multi-line body", "a multi-line serialisation (indent=) is not extracted")
 
 
+def _fromkeys_of(base: Any, is_src: Any) -> bool:
+    """base is dict.fromkeys(S) or list(dict.fromkeys(S)) with is_src(S)."""
+    if isinstance(base, SOpaque) and isinstance(base.descr, tuple) and base.descr[:1] == ("dict.fromkeys",):
+        src = base
+    else:
+        src = base.meta.get("copy_of") if isinstance(base, SObj) and base.meta.get("list_ctor") == "list" else \
+            base.__dict__.get("of") if isinstance(base, SOpaque) else base
+    return isinstance(src, SOpaque) and isinstance(src.descr, tuple) and src.descr[0] == "dict.fromkeys" and bool(is_src(src.__dict__.get("of")))
+
+
+def _unique_is_fromkeys(ctx: Ctx, I: Interp) -> bool:
+    """htmltools._util.unique(x) returns list(dict.fromkeys(x)) on its only path."""
+    fn = ctx.prog.function(UTIL, "unique")
+    if len(fn.args.args) != 1:
+        return False
+    box: Dict[str, Any] = {}
+
+    def mk(run: Any):
+        x = SObj("x", {"LIST"})
+        box["x"] = x
+        return ({fn.args.args[0].arg: x}, None)
+
+    leaves = I.run_function(UTIL, "unique", mk, Config())
+    return len(leaves) == 1 and leaves[0].kind == "return" and _fromkeys_of(leaves[0].value, lambda o_: o_ is box["x"])
+
+
 def _dedup_by_fromkeys(ctx: Ctx, I: Interp, mk: Any, pats: set) -> int:
     """No loop: deps = [HTMLDependency(**json.loads(s)) for s in list(dict.fromkeys(findall(...)))] (order-preserving de-duplication)."""
     cfg = Config()
@@ -257,14 +284,14 @@ def _dedup_by_fromkeys(ctx: Ctx, I: Interp, mk: Any, pats: set) -> int:
             and len(deps.elt.dstar) == 1 and isinstance(deps.elt.dstar[0], SOpaque) and (deps.elt.dstar[0].__dict__.get("extcall") or {}).get("q") == "json.loads" \
             and deps.elt.dstar[0].__dict__["extcall"]["args"][0] is deps.var
         base = deps.base if ok else None
-        # list(dict.fromkeys(findall result))
-        if isinstance(base, SOpaque) and isinstance(base.descr, tuple) and base.descr[:1] == ("dict.fromkeys",):
-            src = base
+        # list(dict.fromkeys(findall result)), written out or through the package's own unique()
+        def _is_findall(o_: Any) -> bool:
+            return isinstance(o_, SOpaque) and (o_.__dict__.get("extcall") or {}).get("q") == "re.findall"
+        bc = (base.meta.get("call") if isinstance(base, SObj) else base.__dict__.get("call") if isinstance(base, SOpaque) else None) or {}
+        if getattr(bc.get("func"), "qual", "") == "unique" and len(bc.get("args") or []) == 1 and not bc.get("kwargs"):
+            fk = _is_findall(bc["args"][0]) and _unique_is_fromkeys(ctx, I)
         else:
-            src = base.meta.get("copy_of") if isinstance(base, SObj) and base.meta.get("list_ctor") == "list" else \
-                base.__dict__.get("of") if isinstance(base, SOpaque) else base
-        fk = isinstance(src, SOpaque) and isinstance(src.descr, tuple) and src.descr[0] == "dict.fromkeys" and isinstance(src.__dict__.get("of"), SOpaque) \
-            and (src.__dict__["of"].__dict__.get("extcall") or {}).get("q") == "re.findall"
+            fk = _fromkeys_of(base, _is_findall)
         n += 1
         ctx.check(bool(ok and fk), "C13.dedup", "distinct serialisations in order of first appearance (dict.fromkeys) are rebuilt with HTMLDependency(**json.loads(text))", EXT,
                   f"deps = {short(deps)}", "the extracted dependencies are not the order-preserving de-duplication of the found serialisations rebuilt one by one")
